@@ -1,5 +1,6 @@
 /- line-protocol handlers for the CAB model (used by C01, C02, C03, C08, C11) -/
 import Relic.Model.Cab
+import Relic.Spec.CabDigest
 namespace Relic.Driver.Cab
 open Relic Relic.Cab
 
@@ -17,6 +18,26 @@ def handle : List String → String
     | some f =>
       showRes (DigestCab f) fun d =>
         s!"ok stream={toHex d.hashed} patched={toHex d.patched} {d.total} {d.offFiles} {d.oldSigSize} #fs={d.foldersStart} de={d.dataEnd} delta={d.delta}"
+  -- C05: the SPECIFICATION's digest input (Relic.Spec.CabDigest) of the signed form of the cabinet: of the file itself
+  -- when it carries a signature header (cab_digest_eq_spec_signed), else of the file the patch path writes for a dummy
+  -- blob (cab_written_file_digest_eq_spec); printed for regular layouts only
+  | ["specdigest", fhex] =>
+    match fromHex fhex with
+    | none => "bad-op"
+    | some f =>
+      showRes (DigestCab f) fun d =>
+        if d.offFiles = d.foldersStart + 8 * d.nFolders ∧ d.offFiles ≤ d.total ∧ (d.delta = 24 → d.total + 24 < 2 ^ 32) then
+          let g : Option Bytes := if d.hasSig then some f else
+            match Binpatch.applyRewrite f (Binpatch.build 4294967295 (makePatch d [1, 2, 3])) with
+            | .ok g => some g
+            | _ => none
+          match g with
+          | none => "err apply"
+          | some g =>
+            match Spec.CabDigest.digestInput g with
+            | some st => s!"ok spec stream={toHex st} #{if d.hasSig then "signed" else "unsigned"}"
+            | none => "ok spec none"
+        else "ok skip"
   | ["sign", fhex, sighex] =>
     match fromHex fhex, fromHex sighex with
     | some f, some sig =>
